@@ -252,7 +252,7 @@ def import_mix_part(check):
 # (an upper-case first segment is taken for a type, not a crate, by the import collector: no such provider)
 AMBIG_PROVIDERS = ["ledger", "directory", "zeta", "alpha-x", "alpha_w", "mid_crate", "mid", "midway", "b2", "b-10"]
 AMBIG_CONSUMERS = ["app", "aaa", "zz-app", "mid_crate2", "Zed"]
-AMBIG_SHAPES = ["two-files", "use-and-qualified", "two-uses", "self-path", "crate-path", "reexport", "reexport+use", "two-files+reexport"]
+AMBIG_SHAPES = ["two-files", "use-and-qualified", "two-uses", "self-path", "crate-path", "reexport", "reexport+use", "two-files+reexport", "sibling-defines"]
 
 
 def ambiguous_workspace(rng, k, shape, nprov, nren):
@@ -266,6 +266,7 @@ def ambiguous_workspace(rng, k, shape, nprov, nren):
       reexport           `use facade::T;` where `facade` is not part of the run (two or three other crates define T)
       reexport+use       the same plus `use p1::T;` from another file
       two-files+reexport two-files plus a third file with `use facade::T;`
+      sibling-defines    `use p1::T;` in one file, a sibling file of the same crate defines its own `T`
     crate names are drawn so that the smallest one is not always the first written / the first imported."""
     ts = [m_path("typeshare")]
     word = rng.choice(TYPE_WORDS)
@@ -312,6 +313,11 @@ def ambiguous_workspace(rng, k, shape, nprov, nren):
     elif shape == "reexport+use":
         cfiles.append(("lib.rs", [use("facade_missing"), holder("Via%d" % k, [T])]))
         cfiles.append(("direct.rs", [use(p1), holder("Direct%d" % k, [T])]))
+    elif shape == "sibling-defines":
+        # one file of the consumer imports the name from a provider, a sibling file of the same crate defines a type of that name
+        own = {"kind": "struct", "attrs": list(ts), "ident": word, "generics": [], "fields": ("named", [field([], "own_field", t_path("u8"))])}
+        cfiles.append(("uses.rs", [use(p1), holder("Uses%d" % k, [T])]))
+        cfiles.append((rng.choice(["own.rs", "a_own.rs", "zz_own.rs"]), [own, holder("OwnUser%d" % k, [T])]))
     else:
         raise ValueError(shape)
     for fn, items in cfiles:
